@@ -1,114 +1,125 @@
 //! Layer node (C17): the unified recursion API (`build_next_layer_circuit`, `build_next_layer_prep`,
 //! `prove_next_layer`, `build_and_prove_aggregation_layer`) with the real `FriRecursionBackend`,
-//! over KoalaBear D=4. The `FriRecursionConfig` wrapper mirrors recursion/examples/common/mod.rs.
-
-use std::sync::Arc;
+//! over KoalaBear D=4 and Goldilocks D=2. The `FriRecursionConfig` wrapper mirrors
+//! recursion/examples/common/mod.rs.
 
 use p3_air::{Air, AirBuilder, BaseAir, WindowAccess};
-use p3_circuit::ops::{generate_poseidon2_trace, generate_recompose_trace};
-use p3_circuit::{CircuitBuilder, CircuitRunner, NonPrimitiveOpId};
-use p3_commit::Pcs;
-use p3_field::{Field, PrimeCharacteristicRing};
-use p3_lookup::logup::LogUpGadget;
+use p3_field::{Field, PrimeCharacteristicRing, PrimeField64};
 use p3_matrix::dense::RowMajorMatrix;
-use p3_poseidon2_circuit_air::KoalaBearD4Width16;
-use p3_recursion::pcs::fri::{FriVerifierParams, InputProofTargets, MerkleCapTargets, RecValMmcs};
-use p3_recursion::pcs::{FriProofTargets, RecExtensionValMmcs, Witness, set_fri_mmcs_private_data};
-use p3_recursion::traits::RecursiveAir;
-use p3_recursion::{FriRecursionConfig, Poseidon2Config, RecursionInput, RecursivePcs, VerificationError};
-use p3_test_utils::koala_bear_params::*;
-use p3_uni_stark::{StarkGenericConfig, Val};
 
-use crate::rec::FriShape;
+macro_rules! layers_universe {
+    ($modname:ident, $params:ident, $enable:ident, $p2params:ty, $p2cfg:expr, $defperm:path, $recmod:ident) => {
+        pub mod $modname {
+            use std::sync::Arc;
 
-pub type InnerFri = FriProofTargets<
-    F,
-    Challenge,
-    RecExtensionValMmcs<F, Challenge, DIGEST_ELEMS, RecValMmcs<F, DIGEST_ELEMS, MyHash, MyCompress>>,
-    InputProofTargets<F, Challenge, RecValMmcs<F, DIGEST_ELEMS, MyHash, MyCompress>>,
-    Witness<F>,
->;
+            use p3_circuit::ops::{generate_poseidon2_trace, generate_recompose_trace};
+            use p3_circuit::{CircuitBuilder, CircuitRunner, NonPrimitiveOpId};
+            use p3_commit::Pcs;
+            use p3_lookup::logup::LogUpGadget;
+            use p3_recursion::pcs::fri::{FriVerifierParams, InputProofTargets, MerkleCapTargets, RecValMmcs};
+            use p3_recursion::pcs::{FriProofTargets, RecExtensionValMmcs, Witness, set_fri_mmcs_private_data};
+            use p3_recursion::traits::RecursiveAir;
+            use p3_recursion::{FriRecursionConfig, RecursionInput, RecursivePcs, VerificationError};
+            use p3_test_utils::$params::*;
+            use p3_uni_stark::{StarkGenericConfig, Val};
 
-#[derive(Clone)]
-pub struct Cfg {
-    pub config: Arc<MyConfig>,
-    pub fri_verifier_params: FriVerifierParams,
-    pub shape: FriShape,
-}
+            use crate::rec::FriShape;
 
-impl Cfg {
-    pub fn new(shape: FriShape) -> Self {
-        Self { config: Arc::new(crate::rec::kb4::config(&shape)), fri_verifier_params: crate::rec::kb4::fri_verifier_params(&shape), shape }
-    }
-}
+            pub type InnerFri = FriProofTargets<
+                F,
+                Challenge,
+                RecExtensionValMmcs<F, Challenge, DIGEST_ELEMS, RecValMmcs<F, DIGEST_ELEMS, MyHash, MyCompress>>,
+                InputProofTargets<F, Challenge, RecValMmcs<F, DIGEST_ELEMS, MyHash, MyCompress>>,
+                Witness<F>,
+            >;
 
-impl core::ops::Deref for Cfg {
-    type Target = MyConfig;
-    fn deref(&self) -> &MyConfig {
-        &self.config
-    }
-}
+            #[derive(Clone)]
+            pub struct Cfg {
+                pub config: Arc<MyConfig>,
+                pub fri_verifier_params: FriVerifierParams,
+                pub shape: FriShape,
+            }
 
-impl StarkGenericConfig for Cfg {
-    type Challenge = Challenge;
-    type Challenger = Challenger;
-    type Pcs = MyPcs;
-    fn pcs(&self) -> &MyPcs {
-        self.config.pcs()
-    }
-    fn initialise_challenger(&self) -> Challenger {
-        self.config.initialise_challenger()
-    }
-}
+            impl Cfg {
+                pub fn new(shape: FriShape) -> Self {
+                    Self { config: Arc::new(crate::rec::$recmod::config(&shape)), fri_verifier_params: crate::rec::$recmod::fri_verifier_params(&shape), shape }
+                }
+            }
 
-impl FriRecursionConfig for Cfg
-where
-    MyPcs: RecursivePcs<
-            Cfg,
-            InputProofTargets<F, Challenge, RecValMmcs<F, DIGEST_ELEMS, MyHash, MyCompress>>,
-            InnerFri,
-            MerkleCapTargets<F, DIGEST_ELEMS>,
-            <MyPcs as Pcs<Challenge, Challenger>>::Domain,
-        >,
-{
-    type Commitment = MerkleCapTargets<F, DIGEST_ELEMS>;
-    type InputProof = InputProofTargets<F, Challenge, RecValMmcs<F, DIGEST_ELEMS, MyHash, MyCompress>>;
-    type OpeningProof = InnerFri;
-    type RawOpeningProof = <MyPcs as Pcs<Challenge, Challenger>>::Proof;
-    const DIGEST_ELEMS: usize = DIGEST_ELEMS;
+            impl core::ops::Deref for Cfg {
+                type Target = MyConfig;
+                fn deref(&self) -> &MyConfig {
+                    &self.config
+                }
+            }
 
-    fn with_fri_opening_proof<'a, A, R>(prev: &RecursionInput<'a, Self, A>, f: impl FnOnce(&Self::RawOpeningProof) -> R) -> R
-    where
-        A: RecursiveAir<Val<Self>, Self::Challenge, LogUpGadget>,
-    {
-        match prev {
-            RecursionInput::UniStark { proof, .. } => f(&proof.opening_proof),
-            RecursionInput::BatchStark { proof, .. } => f(&proof.proof.opening_proof),
+            impl StarkGenericConfig for Cfg {
+                type Challenge = Challenge;
+                type Challenger = Challenger;
+                type Pcs = MyPcs;
+                fn pcs(&self) -> &MyPcs {
+                    self.config.pcs()
+                }
+                fn initialise_challenger(&self) -> Challenger {
+                    self.config.initialise_challenger()
+                }
+            }
+
+            impl FriRecursionConfig for Cfg
+            where
+                MyPcs: RecursivePcs<
+                        Cfg,
+                        InputProofTargets<F, Challenge, RecValMmcs<F, DIGEST_ELEMS, MyHash, MyCompress>>,
+                        InnerFri,
+                        MerkleCapTargets<F, DIGEST_ELEMS>,
+                        <MyPcs as Pcs<Challenge, Challenger>>::Domain,
+                    >,
+            {
+                type Commitment = MerkleCapTargets<F, DIGEST_ELEMS>;
+                type InputProof = InputProofTargets<F, Challenge, RecValMmcs<F, DIGEST_ELEMS, MyHash, MyCompress>>;
+                type OpeningProof = InnerFri;
+                type RawOpeningProof = <MyPcs as Pcs<Challenge, Challenger>>::Proof;
+                const DIGEST_ELEMS: usize = DIGEST_ELEMS;
+
+                fn with_fri_opening_proof<'a, A, R>(prev: &RecursionInput<'a, Self, A>, f: impl FnOnce(&Self::RawOpeningProof) -> R) -> R
+                where
+                    A: RecursiveAir<Val<Self>, Self::Challenge, LogUpGadget>,
+                {
+                    match prev {
+                        RecursionInput::UniStark { proof, .. } => f(&proof.opening_proof),
+                        RecursionInput::BatchStark { proof, .. } => f(&proof.proof.opening_proof),
+                    }
+                }
+
+                fn prepare_circuit_for_verification(&self, circuit: &mut CircuitBuilder<Challenge>) -> Result<(), VerificationError> {
+                    circuit.$enable::<$p2params, _>(generate_poseidon2_trace::<Challenge, $p2params>, $defperm());
+                    circuit.enable_recompose::<F>(generate_recompose_trace::<F, Challenge>);
+                    Ok(())
+                }
+
+                fn pcs_verifier_params(
+                    &self,
+                ) -> &<MyPcs as RecursivePcs<
+                    Cfg,
+                    InputProofTargets<F, Challenge, RecValMmcs<F, DIGEST_ELEMS, MyHash, MyCompress>>,
+                    InnerFri,
+                    MerkleCapTargets<F, DIGEST_ELEMS>,
+                    <MyPcs as Pcs<Challenge, Challenger>>::Domain,
+                >>::VerifierParams {
+                    &self.fri_verifier_params
+                }
+
+                fn set_fri_private_data(runner: &mut CircuitRunner<'_, Challenge>, op_ids: &[NonPrimitiveOpId], opening_proof: &Self::RawOpeningProof) -> Result<(), &'static str> {
+                    set_fri_mmcs_private_data::<F, Challenge, ChallengeMmcs, MyMmcs, MyHash, MyCompress, DIGEST_ELEMS>(runner, op_ids, opening_proof, $p2cfg)
+                }
+            }
+
         }
-    }
-
-    fn prepare_circuit_for_verification(&self, circuit: &mut CircuitBuilder<Challenge>) -> Result<(), VerificationError> {
-        circuit.enable_poseidon2_perm::<KoalaBearD4Width16, _>(generate_poseidon2_trace::<Challenge, KoalaBearD4Width16>, p3_koala_bear::default_koalabear_poseidon2_16());
-        circuit.enable_recompose::<F>(generate_recompose_trace::<F, Challenge>);
-        Ok(())
-    }
-
-    fn pcs_verifier_params(
-        &self,
-    ) -> &<MyPcs as RecursivePcs<
-        Cfg,
-        InputProofTargets<F, Challenge, RecValMmcs<F, DIGEST_ELEMS, MyHash, MyCompress>>,
-        InnerFri,
-        MerkleCapTargets<F, DIGEST_ELEMS>,
-        <MyPcs as Pcs<Challenge, Challenger>>::Domain,
-    >>::VerifierParams {
-        &self.fri_verifier_params
-    }
-
-    fn set_fri_private_data(runner: &mut CircuitRunner<'_, Challenge>, op_ids: &[NonPrimitiveOpId], opening_proof: &Self::RawOpeningProof) -> Result<(), &'static str> {
-        set_fri_mmcs_private_data::<F, Challenge, ChallengeMmcs, MyMmcs, MyHash, MyCompress, DIGEST_ELEMS>(runner, op_ids, opening_proof, Poseidon2Config::KOALA_BEAR_D4_W16)
-    }
+    };
 }
+layers_universe!(kb, koala_bear_params, enable_poseidon2_perm, p3_poseidon2_circuit_air::KoalaBearD4Width16, p3_recursion::Poseidon2Config::KOALA_BEAR_D4_W16, p3_koala_bear::default_koalabear_poseidon2_16, kb4);
+layers_universe!(gl, goldilocks_params, enable_poseidon2_perm_width_8, p3_circuit::ops::GoldilocksD2Width8, p3_recursion::Poseidon2Config::GOLDILOCKS_D2_W8, crate::rec::gl_default_perm, gl2);
+pub use kb::Cfg;
 
 /// Three-column AIR with one transition constraint; the two variants compile to verifier circuits
 /// of equal size counters but different wiring (`c' = a*b + c` vs `c' = a*c + b`).
@@ -136,14 +147,14 @@ impl<AB: AirBuilder> Air<AB> for PairAir {
     }
 }
 impl PairAir {
-    pub fn trace(&self, log_n: usize, seed: u64) -> RowMajorMatrix<F> {
+    pub fn trace<F: PrimeField64>(&self, log_n: usize, seed: u64) -> RowMajorMatrix<F> {
         let n = 1usize << log_n;
         let mut rng = crate::core::prng::Rng::new(seed, "pair-air", self.variant as u64);
         let mut v = Vec::with_capacity(3 * n);
         let mut c = F::from_u64(rng.below(1000));
         for _ in 0..n {
-            let a = F::from_u64(rng.below(<F as p3_field::PrimeField64>::ORDER_U64));
-            let b = F::from_u64(rng.below(<F as p3_field::PrimeField64>::ORDER_U64));
+            let a = F::from_u64(rng.below(F::ORDER_U64));
+            let b = F::from_u64(rng.below(F::ORDER_U64));
             v.extend([a, b, c]);
             c = if self.variant == 0 { a * b + c } else { a * c + b };
         }
